@@ -10,9 +10,9 @@ from . import crystals as cs, networks as nw
 from ..core import canon, known_ids
 
 # catalogue members with few vacancy sites per cell (cheap to build); second entry: has sites with a non-zero vector basis
-SMALL = ["SC", "FCC", "BCC", "HCP", "diamond", "B2", "B2o", "L12", "omega", "omegaB", "romega", "romegaB", "square", "tria", "honeycomb", "rect2", "tetP2", "mono2"]
+SMALL = ["SC", "FCC", "BCC", "HCP", "diamond", "B2", "B2o", "L12", "omega", "omegaB", "romega", "romegaB", "square", "tria", "honeycomb", "rect2", "tetP2", "mono2", "tet2w", "sq2w", "sq3", "sq3B"]
 
-MULTI = ["HCP", "diamond", "B2", "omega", "omegaB", "romega", "honeycomb", "rect2", "tetP2", "mono2"]
+MULTI = ["HCP", "diamond", "B2", "omega", "omegaB", "romega", "honeycomb", "rect2", "tetP2", "mono2", "tet2w", "sq2w", "sq3", "sq3B"]
 
 _calc = {}
 
@@ -53,7 +53,9 @@ def site_vector_basis(crys, chem=0):
     return any(crys.VectorBasis((chem, i))[0] > 0 for i in range(len(crys.basis[chem])))
 
 
-NO_OS = ["SC", "FCC", "BCC", "HCP", "diamond", "B2o", "L12", "omega", "omegaB", "square", "tria", "honeycomb"]
+NO_OS = ["SC", "FCC", "BCC", "HCP", "diamond", "B2o", "L12", "omega", "omegaB", "square", "tria", "honeycomb", "tet2w", "sq2w", "sq3", "sq3B"]
+# several Wyckoff sets on the vacancy sublattice (drawn more often: most defects of the Lij family need them)
+MULTIW = ["omega", "omegaB", "romega", "romegaB", "tet2w", "sq2w", "sq3", "sq3B"]
 
 
 @st.composite
@@ -67,6 +69,9 @@ def setups(draw, dim=None, nthermo=(1, 2), max_mobile=3, p_catalogue=0.5, names=
     redrawn = None
     if draw(st.floats(0, 1)) < p_catalogue:
         cands = cs.catalogue(names, dim)
+        multiw = [c for c in cands if c["name"] in MULTIW]
+        if multiw and draw(st.floats(0, 1)) < 0.4:
+            cands = multiw
         rec = draw(st.sampled_from(cands))
     else:
         rec = draw(cs.crystal_recipes(dim=dim, max_species=2, max_mobile=max_mobile, max_other=3))
